@@ -12,7 +12,7 @@ pub fn def() -> PropertyDef {
     PropertyDef {
         id: "C19",
         level: "fault_enumeration",
-        rule: "valid single-revision classic files without object streams (synthesized with 3–40 objects of mixed kinds incl. plain and Flate streams, or authored by the library with 1–3 text pages, compression on/off) × one or two damage operations from the catalogue {shift all offsets ±k, corrupt one entry, swap two entries, truncate the table, delete the table, delete startxref, point startxref at 0 / EOF / mid-object, wrong /Size, delete the trailer keyword, prepend junk}; the quick tier additionally enumerates EVERY single catalogue operation on a fixed set of base files (sub `catalogue`). Oracle: intact file read by the strict preset vs damaged file read with recovery (tolerant, skip_errors; ParseOptions::default() is the strict configuration and is only observed): same catalog, page count and the same value for every object. Non-trivial: the strict preset fails on the damaged file (recovery really had to run); distinct by hash of (file spec, damage).",
+        rule: "valid single-revision classic files without object streams (synthesized with 3–40 objects of mixed kinds incl. plain and Flate streams; 20 % with CR-only line ends, 30 % with compact object headers — no white space between `obj` and a body that starts with a delimiter —, or authored by the library with 1–3 text pages, compression on/off) × one or two damage operations from the catalogue {shift all offsets ±k, corrupt one entry, swap two entries, truncate the table, delete the table, delete startxref, point startxref at 0 / EOF / mid-object, wrong /Size, delete the trailer keyword, prepend junk}; the quick tier additionally enumerates EVERY single catalogue operation on a fixed set of base files (sub `catalogue`). Oracle: intact file read by the strict preset vs damaged file read with recovery (tolerant, skip_errors; ParseOptions::default() is the strict configuration and is only observed): same catalog, page count and the same value for every object. Non-trivial: the strict preset fails on the damaged file (recovery really had to run); distinct by hash of (file spec, damage).",
         assumptions: &[
             "recovery-enabled presets: tolerant/lenient and skip_errors must open the damaged file; the default preset may refuse it but may not return different values",
             "streams whose data contain text that looks like an object header form a separately labelled class (decoy)",
